@@ -39,6 +39,12 @@ func journalRecords(path string) (ends []int64, payloads [][]byte, err error) {
 	if err != nil {
 		return nil, nil, err
 	}
+	return journalRecordsBytes(data)
+}
+
+// journalRecordsBytes: the parser itself (its reading of real journals is compared with goleveldb's own reader and with the
+// Lean model of the format by the jr-* lines of s_crash_journal.go)
+func journalRecordsBytes(data []byte) (ends []int64, payloads [][]byte, err error) {
 	pos := 0
 	var cur []byte
 	inRec := false
@@ -349,6 +355,12 @@ func writesString(ws []rawWrite) string {
 
 func init() {
 	register("crash", func(c *Ctx) {
+		jrResetBudget(c)
+		if c.Args["journal"] != "off" {
+			for i := 0; i < 3+c.N/100; i++ {
+				crashJournalSynthetic(c, i)
+			}
+		}
 		for seq := 0; seq < c.N; seq++ {
 			crashSequence(c, seq)
 		}
@@ -657,6 +669,14 @@ func crashSequence(c *Ctx, seq int) {
 			if !crashTornImages(c, seq, dir, journal, opDesc, start, endsAfter[na-1], before, after, redo) {
 				return
 			}
+		}
+		// the journal layer itself: goleveldb's reader, the harness parser and the Lean model on the same bytes
+		if na > nb && c.Args["journal"] != "off" {
+			start := int64(0)
+			if nb > 0 {
+				start = endsBefore[nb-1]
+			}
+			crashJournalLines(c, seq, step, journal, start, endsAfter[na-1])
 		}
 	}
 }
